@@ -60,34 +60,41 @@ void h_sign(void) {
 
     __CPROVER_assert(ret == 0 || ret == 1, "C02 sign: returns 0 or 1");
     __CPROVER_assert(g_error == 0, "C02 sign: error callback never invoked");
-    if (use_ep && !magic_ok) __CPROVER_assert(ret == 0 && g_illegal == 1 && g_nf_n == 0 && g_gen_n == 0, "C02 sign_custom: bad extraparams magic reports illegal use, returns 0, signs nothing");
+    /* API misuse and invalid objects: only what the header promises (illegal callback, 0); no call counts, nothing about outputs */
+    if (use_ep && !magic_ok) __CPROVER_assert(ret == 0 && g_illegal >= 1, "C02 sign_custom: bad extraparams magic reports illegal use and returns 0");
     args_ok = built && use_sig && use_kp && (msg != NULL || msglen == 0) && (!use_ep || magic_ok);
-    if (!args_ok) { __CPROVER_assert(ret == 0 && g_illegal == 1 && g_nf_n == 0 && g_gen_n == 0, "C02 sign: API misuse reports illegal use, returns 0, signs nothing"); REACH("sign API misuse"); return; }
-
-    kp_valid = (skv != 0 && skv < n && px != 0);
-    __CPROVER_assert(g_illegal == (kp_valid ? 0 : 1), "C02 sign: illegal callback iff the keypair object is invalid");
-    __CPROVER_assert(g_nf_n == 1 && g_gen_n == 1 && g_sg_n == 1 && g_chal_n == 1 && g_mul_n == 1, "C02 sign: one nonce derivation, one R = k*G, one affine conversion, one challenge, one product");
-    k = be256(g_nf_out); if (k >= n) k -= n;
-    __CPROVER_assert(ret == ((kp_valid && g_nf_ret != 0 && k != 0) ? 1 : 0), "C02 sign: succeeds iff keypair valid, nonce function succeeded and nonce != 0 mod n");
+    if (!args_ok) { __CPROVER_assert(ret == 0 && g_illegal >= 1, "C02 sign: API misuse reports illegal use and returns 0"); REACH("sign API misuse"); return; }
     if (ret == 0) __CPROVER_assert(sig[gi] == 0, "C02 sign: failure leaves sig64 all-zero");
+    kp_valid = (skv != 0 && skv < n && px != 0);
+    if (!kp_valid) {
+        __CPROVER_assert(ret == 0 && g_illegal >= 1, "C02 sign: invalid keypair object reports illegal use and returns 0");
+        if (px != 0) REACH("sign invalid secret key");
+        if (px == 0) REACH("sign invalid public key");
+        return;
+    }
+    /* valid keypair from here on */
+    __CPROVER_assert(g_illegal == 0, "C02 sign: no callback for a valid keypair and well-formed arguments");
+    __CPROVER_assert(g_nf_n == 1, "C02 sign: the nonce function is consulted exactly once for a valid keypair");
+    if (g_nf_n != 1) return;     /* the log below is meaningful only then (and g_nf_algop is a logged pointer) */
+    k = be256(g_nf_out); if (k >= n) k -= n;
+    __CPROVER_assert(ret == ((g_nf_ret != 0 && k != 0) ? 1 : 0), "C02 sign: with a valid keypair, succeeds iff the nonce function succeeded and nonce != 0 mod n");
     /* what the nonce function was given */
-    algo_ok = (g_nf_algolen == 13); if (algo_ok) for (i = 0; i < 13; i++) algo_ok &= (g_nf_algop[i] == bip[i]);
+    algo_ok = (g_nf_algolen == 13 && g_nf_algop != NULL); if (algo_ok) for (i = 0; i < 13; i++) algo_ok &= (g_nf_algop[i] == bip[i]);
     __CPROVER_assert(g_nf_msgp == msg && g_nf_msglen == msglen && algo_ok, "C02 sign: nonce function receives the caller's msg, exactly msglen, algo = BIP0340/nonce");
     __CPROVER_assert(g_nf_data == ((use_ep && use_ndata) ? aux : NULL), "C02 sign_custom: nonce function receives extraparams->ndata (NULL without extraparams)");
-    __CPROVER_assert(g_nf_which == ((use_ep && nf_sel == 2) ? 1 : 0), "C02 sign_custom: custom noncefp is used iff given; NULL or secp256k1_nonce_function_bip340 select the context-aware default");
-    if (g_nf_which == 0) __CPROVER_assert(g_nf_hc == &ctx.hash_ctx, "C02 sign_custom: default nonce function runs on the context's hash implementation");
-    if (kp_valid) {
-        skp = (py & 1) ? n - skv : skv;
-        __CPROVER_assert(be256(g_nf_key) == skp, "C02 sign: key handed to the nonce function is d negated iff y(P) is odd");
-        __CPROVER_assert(be256(g_nf_pk) == px && be256(g_chal_pk) == px, "C02 sign: nonce function and challenge receive be(x(P))");
-        __CPROVER_assert(sval(&g_mul_b0) == skp && SC_EQ(g_mul_a0, g_chal_e), "C02 sign: the product requested is e * d' (e from challenge, d' = d negated iff y(P) odd)");
-    }
-    __CPROVER_assert(FE_EQ(g_sg_a0.x, g_gen_r0.x) && FE_EQ(g_sg_a0.y, g_gen_r0.y) && FE_EQ(g_sg_a0.z, g_gen_r0.z) && g_sg_a0.infinity == g_gen_r0.infinity, "C02 sign: R is the ecmult_gen result");
-    __CPROVER_assert(g_chal_hit && g_chal_r32p == &sig[0] && g_chal_msgp == msg && g_chal_msglen == msglen && g_chal_hc == &ctx.hash_ctx, "C02 sign: challenge receives sig64[0..32), the caller's msg and exactly msglen");
-    rx = fmodp(fval(&g_sg_r0.x)); ry = fmodp(fval(&g_sg_r0.y));
-    __CPROVER_assert(be256(g_chal_r32) == rx, "C02 sign: challenge receives be(x(R))");
+    __CPROVER_assert(g_nf_which == ((use_ep && nf_sel == 2) ? 1 : 0), "C02 sign_custom: a custom noncefp is used iff given; NULL or secp256k1_nonce_function_bip340 select the BIP-340 nonce function");
+    if (g_nf_which == 0) __CPROVER_assert(g_nf_hc == &ctx.hash_ctx || g_nf_hc == &secp256k1_context_static->hash_ctx, "C02 sign_custom: the BIP-340 nonce function runs on a library hash context (the caller's or the static one)");
+    skp = (py & 1) ? n - skv : skv;
+    __CPROVER_assert(be256(g_nf_key) == skp, "C02 sign: key handed to the nonce function is d negated iff y(P) is odd");
+    __CPROVER_assert(be256(g_nf_pk) == px, "C02 sign: nonce function receives be(x(P))");
     if (ret == 1) {
+        /* usage of the oracles, stated over VALUES, only on the success path */
+        __CPROVER_assert(g_gen_n == 1 && g_sg_n == 1 && g_chal_n == 1 && g_mul_n == 1 && g_chal_hit, "C02 sign: success uses one R = k*G, one affine conversion, one challenge, one product");
         __CPROVER_assert(sval(&g_gen_a0) == k, "C02 sign: R = k*G for k = nonce32 mod n");
+        __CPROVER_assert(FE_EQ(g_sg_a0.x, g_gen_r0.x) && FE_EQ(g_sg_a0.y, g_gen_r0.y) && FE_EQ(g_sg_a0.z, g_gen_r0.z) && g_sg_a0.infinity == g_gen_r0.infinity, "C02 sign: R is the ecmult_gen result");
+        rx = fmodp(fval(&g_sg_r0.x)); ry = fmodp(fval(&g_sg_r0.y));
+        __CPROVER_assert(be256(g_chal_r32) == rx && be256(g_chal_pk) == px && g_chal_msgp == msg && g_chal_msglen == msglen, "C02 sign: challenge receives be(x(R)), the caller's msg, exactly msglen, be(x(P))");
+        __CPROVER_assert((sval(&g_mul_a0) == sval(&g_chal_e) && sval(&g_mul_b0) == skp) || (sval(&g_mul_b0) == sval(&g_chal_e) && sval(&g_mul_a0) == skp), "C02 sign: the product requested is e * d' in either operand order (e from challenge, d' = d negated iff y(P) odd)");
         __CPROVER_assert(be256(&sig[0]) == rx, "C02 sign: sig[0..32) = be(x(R))");
         kk = (ry & 1) ? n - k : k;
         sum = sval(&g_mul_r0) + kk; if (sum >= n) sum -= n;
@@ -99,9 +106,7 @@ void h_sign(void) {
         if (!use_ep) REACH("sign_custom success without extraparams");
         if (msglen == 0 && msg == NULL) REACH("sign success empty NULL message");
     }
-    if (kp_valid && g_nf_ret == 0) REACH("sign nonce function fails");
-    if (kp_valid && g_nf_ret != 0 && k == 0) REACH("sign zero nonce");
-    if (!kp_valid && px != 0) REACH("sign invalid secret key");
-    if (px == 0) REACH("sign invalid public key");
+    if (g_nf_ret == 0) REACH("sign nonce function fails");
+    if (g_nf_ret != 0 && k == 0) REACH("sign zero nonce");
 }
 #endif
